@@ -62,3 +62,12 @@ Definition run_slot (c : value) : value :=
       end
   | _ => verr
   end.
+
+(* family "slotm": several connections, one after the other, through ONE QObjectHandler (the handler keeps nothing
+   between requests).  case ::= ( regs (ops..) oracle (meta..) ); obs: one list of logs, one per connection *)
+Definition run_slotm (c : value) : value :=
+  match c with
+  | VL (VL regs :: VL conns :: orc :: _) =>
+      VL (map (fun ops => run_slot (VL [VL regs; ops; orc])) conns)
+  | _ => verr
+  end.
